@@ -5,7 +5,7 @@ keys must not change under reordering / relocation."""
 import json, os
 from vlib import core
 
-QUICK = dict(Labels='{"//p:t", "//p:ta"}', Cmds='{"a", "aa"}', Names='{"a", "b", "a,b"}', DeclSets="DeclSetsS", Contents='{"", "x"}', FpKeys='{"k", "k=v"}', FpVals='{"w", "v=w"}',
+QUICK = dict(Labels='{"//p:t", "//p:ta"}', Cmds='{"a", "aa"}', Names='{"a", "b", "a,b"}', DeclSets="DeclSetsS", Contents='{"", "x"}', FpKeys='{"k", "k=v", "platform"}', FpVals='{"w", "v=w"}',
              OutSets="OutSetsS", Platforms='{"linux/amd64", "mp"}', DepSets="DepSetsS")
 THOROUGH = dict(QUICK, DeclSets="DeclSetsQ", Contents='{"", "x", "xx"}', OutSets="OutSetsQ", Platforms='{"linux/amd64", "linux/arm64", "mp"}', DepSets="DepSetsQ")
 
